@@ -62,7 +62,7 @@ def shards(tier):
 
 
 def corner(w):
-    return sorted({0, 1, (1 << (w - 1)) - 1, 1 << (w - 1), (1 << w) - 1} & set(range(1 << w)))
+    return sorted(v for v in {0, 1, (1 << (w - 1)) - 1, 1 << (w - 1), (1 << w) - 1, (1 << w) // 3} if 0 <= v < (1 << w))
 
 
 def alphabet(ins):
